@@ -433,16 +433,22 @@ def run_f(prog, res, floor=1, units=("simplify.c",)):
             return tag_test(fn, nd["c"][1])
         return tag_test(fn, n)
 
-    def tested_vars(fn, n):
+    def tested_vars(fn, n, depth=0):
         """variables whose own value is compared with #f by the comparison operand n"""
         n = fn.strip(n)
         nd = fn.nodes[n]
         if nd["k"] == "ref" and "d" in nd:
-            return [(nd["d"], n)]
-        if nd["k"] in ("cond", "ternary", "?:") or (nd["k"] == "tern"):
+            out = [(nd["d"], n)]
+            if depth < 2:           # a local that only copies: val = litp(v) ? lit_value(v) : v
+                defs = [x["c"][-1] for x in fn.nodes if (x["k"] == "bin" and x["o"] == "=" and var_of(fn, x["c"][0]) == nd["d"])
+                        or (x["k"] == "decl" and x.get("d") == nd["d"] and x.get("c"))]
+                if len(defs) == 1:
+                    out.extend(tested_vars(fn, defs[0], depth + 1))
+            return out
+        if nd["k"] == "cond":
             out = []
             for c in nd["c"][1:]:
-                out.extend(tested_vars(fn, c))
+                out.extend(tested_vars(fn, c, depth))
             return out
         return []
     for fn in prog.all_funcs():
